@@ -229,6 +229,15 @@ type CorpusCase struct {
 }
 
 func docByPath(p string) *corpus.Doc {
+	if strings.Contains(p, "#legacy-") {
+		for _, d := range corpus.Legacy() {
+			if d.Path == p {
+				d := d
+				return &d
+			}
+		}
+		return nil
+	}
 	for _, d := range corpus.MustLoad() {
 		if d.Path == p {
 			d := d
@@ -248,6 +257,20 @@ func judgeCorpus(c CorpusCase, o *vh.Obs) {
 	o.NonTrivial()
 	if b1, ok := fixpoint(d.JSON, d.IsEnv, "", o); ok {
 		readOnly(b1, o)
+	}
+}
+
+// legacy shapes of the examples (older member names, zones, rate and extension
+// keys the library migrates on load): what they are migrated to must be a fixpoint
+func enumLegacy(yield func(CorpusCase) bool) {
+	cfg := vh.Cfg()
+	for i, d := range corpus.Legacy() {
+		if i%cfg.Shards != cfg.Shard {
+			continue
+		}
+		if !yield(CorpusCase{Doc: d.Path}) {
+			return
+		}
 	}
 }
 
@@ -995,12 +1018,13 @@ func judgeDecorated(c DecoratedCase, o *vh.Obs) {
 
 func init() {
 	vh.Describe(
-		"(i) every example document of every schema; (ii) generated invoices / orders / deliveries (C01 variety); (iii) example documents with 1-3 string fields (codes, series, identities, addresses, notes, names) replaced by hostile strings (spaces, doubled separators, non-ASCII, leading invalid characters, country prefixes); (iv) random histories of up to 12 steps of calculate / serialise+parse / validate / digest / verify / extract / sign / re-sign / clone over examples; (v) every published regime / addon / catalogue file parsed by its $schema and serialised again; (vi) normaliser laws on hostile strings; (viii) a minimal invoice for every registered regime x every published addon (and none) x every rate key of every category (plus explicit 0% / 10% / no percentage) and x every general, regime and addon invoice tag with a customer of the same and of five other countries; (ix) generated documents (tax-heavy, fixed amounts at the currency's precision) with 0-3 published addons, 0-3 general / regime / addon tags, a supplier tax identity and a customer of no, the same or any other tax country; (x) every member the published schemas declare and an example does not carry, added once per published type and member with a small valid instance and with each free-text string within two member names inside it replaced by untidy text (spaces, doubled separators, non-ASCII, prefixes); (vii) the calculated bytes of every example and of 40 generated documents recomputed in fresh processes with other GOMAXPROCS. Oracle: B1 = marshal(calc(parse(src))), marshal(parse(B1)) == B1, marshal(calc(parse(B1))) == B1 byte for byte with the same digest (also a third time), read-only operations leave marshal(env) unchanged, identical bytes across processes. Non-trivial: the case had something to normalise, round or reorder (hostile strings, rounding remainders, >= 2 history steps).",
+		"(i) every example document of every schema, and legacy variants of two example invoices per regime rewritten into the older shapes the library migrates on load (tax identity zones in PT / CO / MX, PT legacy exempt rate keys, IT SDI extension keys, MX identities that became extensions, tags and old rounding names on the tax object, tags on combos, online payment name / addr); (ii) generated invoices / orders / deliveries (C01 variety); (iii) example documents with 1-3 string fields (codes, series, identities, addresses, notes, names) replaced by hostile strings (spaces, doubled separators, non-ASCII, leading invalid characters, country prefixes); (iv) random histories of up to 12 steps of calculate / serialise+parse / validate / digest / verify / extract / sign / re-sign / clone over examples; (v) every published regime / addon / catalogue file parsed by its $schema and serialised again; (vi) normaliser laws on hostile strings; (viii) a minimal invoice for every registered regime x every published addon (and none) x every rate key of every category (plus explicit 0% / 10% / no percentage) and x every general, regime and addon invoice tag with a customer of the same and of five other countries; (ix) generated documents (tax-heavy, fixed amounts at the currency's precision) with 0-3 published addons, 0-3 general / regime / addon tags, a supplier tax identity and a customer of no, the same or any other tax country; (x) every member the published schemas declare and an example does not carry, added once per published type and member with a small valid instance and with each free-text string within two member names inside it replaced by untidy text (spaces, doubled separators, non-ASCII, prefixes); (vii) the calculated bytes of every example and of 40 generated documents recomputed in fresh processes with other GOMAXPROCS. Oracle: B1 = marshal(calc(parse(src))), marshal(parse(B1)) == B1, marshal(calc(parse(B1))) == B1 byte for byte with the same digest (also a third time), read-only operations leave marshal(env) unchanged, identical bytes across processes. Non-trivial: the case had something to normalise, round or reorder (hostile strings, rounding remainders, >= 2 history steps).",
 		"identifiers and dates are pinned (explicit uuid / issue_date, fixed header uuid); signatures are random and excluded from byte comparisons",
 		"documents with a fixed amount finer than its presented precision are a recorded finding (excluded by signature, counted)",
 		"a panic on a hostile string is reported by C14, not here",
 	)
 	vh.Enum("corpus", enumCorpus, judgeCorpus)
+	vh.Enum("legacy", enumLegacy, judgeCorpus)
 	vh.Enum("definitions", enumDefinitions, judgeDefinition)
 	vh.Enum("regime_addon_matrix", enumMatrix, judgeMatrix)
 	vh.Rapid("decorated", 10_000, 600_000, genDecorated, judgeDecorated)
